@@ -328,6 +328,8 @@ def obligations(prop):
         wrap("C18_G4_item_count", generate_item_count, "source:formula")
     if prop == "C16":
         wrap("C16_G6_tables", generate_arrays, "source:outcome-table")
+    if prop == "C15":
+        wrap("C15_G7_control", generate_sprt, "source:control")
     return out
 
 
@@ -504,3 +506,68 @@ def generate_arrays(repo=None):
             "Proof. reflexivity. Qed.", ""]
     detail.append({"site": "core.two_sample_shift", "table": t})
     return "\n".join(out), detail
+
+
+# =========================================================================================================
+# G7: the control conditions of sprt: the continuation test of the sequential loop and the decision chain.
+def tr_cond(node, qnames, nat_atoms):
+    """boolean Python expression over rational names -> Gallina bool"""
+    if isinstance(node, ast.BoolOp):
+        parts = [tr_cond(v, qnames, nat_atoms) for v in node.values]
+        op = " && " if isinstance(node.op, ast.And) else " || "
+        return "(" + op.join(parts) + ")"
+    if isinstance(node, ast.Compare) and len(node.ops) == 1:
+        txt = ast.unparse(node)
+        if txt in nat_atoms:
+            return nat_atoms[txt]
+        l, r = node.left, node.comparators[0]
+        if isinstance(l, ast.Name) and isinstance(r, ast.Name) and l.id in qnames and r.id in qnames:
+            a, b = qnames[l.id], qnames[r.id]
+            op = type(node.ops[0])
+            if op is ast.LtE: return f"(Qle_bool {a} {b})"
+            if op is ast.GtE: return f"(Qle_bool {b} {a})"
+            if op is ast.Lt: return f"(negb (Qle_bool {b} {a}))"
+            if op is ast.Gt: return f"(negb (Qle_bool {a} {b}))"
+    raise Unsupported("condition outside the grammar: " + ast.unparse(node)[:80])
+
+
+def generate_sprt(repo=None):
+    repo = repo or os.environ.get("VERIF_REPO", "/repo")
+    fn = find_function(ast.parse(open(os.path.join(repo, "permute", "sprt.py")).read()), "sprt")
+    q = {"ts": "ts", "A": "A", "B": "B"}
+    whiles = [n for n in ast.walk(fn) if isinstance(n, ast.While)]
+    if len(whiles) != 1:
+        raise Unsupported(f"sprt: {len(whiles)} while loops")
+    w = tr_cond(whiles[0].test, q, {"index < len(x)": "(Nat.ltb index n)"})
+    body = [ast.unparse(s) for s in whiles[0].body]
+    if body != ["index += 1", "ts = likelihood_ratio(x[0:index])"]:
+        raise Unsupported(f"sprt: loop body {body}")
+    # decision chain: if c1: conclusion = [b, b] elif c2: ... else: ...
+    chain = [n for n in fn.body if isinstance(n, ast.If) and any(isinstance(s, ast.Assign) and ast.unparse(s.targets[0]) == "conclusion" for s in n.body)]
+    if len(chain) != 1:
+        raise Unsupported("sprt: decision chain not found")
+    def concl(stmts):
+        if len(stmts) != 1 or not isinstance(stmts[0], ast.Assign) or ast.unparse(stmts[0].targets[0]) != "conclusion":
+            raise Unsupported("sprt: branch is not a single assignment to conclusion")
+        v = stmts[0].value
+        if not (isinstance(v, ast.List) and len(v.elts) == 2 and all(isinstance(e, ast.Constant) and isinstance(e.value, bool) for e in v.elts)):
+            raise Unsupported("sprt: conclusion is not a pair of booleans")
+        return "(" + ", ".join("true" if e.value else "false" for e in v.elts) + ")"
+    def dec(n):
+        c = tr_cond(n.test, q, {})
+        if len(n.orelse) == 1 and isinstance(n.orelse[0], ast.If):
+            e = dec(n.orelse[0])
+        else:
+            e = concl(n.orelse)
+        return f"(if {c} then {concl(n.body)} else {e})"
+    d = dec(chain[0])
+    text = "\n".join([
+        "From Coq Require Import QArith Bool Arith Lqa.", "From PV Require Import Lib.Base Model.Sprt Lib.TailTables.", "Open Scope Q_scope.", "",
+        f"Definition src_continue (ts A B : Q) (index n : nat) : bool := {w}.",
+        "Theorem G7_sprt_continue : forall ts A B index n,",
+        "  src_continue ts A B index n = (negb (Qle_bool ts A) && negb (Qle_bool B ts) && Nat.ltb index n).",
+        "Proof. intros. unfold src_continue. cond_tac. Qed.", "",
+        f"Definition src_conclude (ts A B : Q) : bool * bool := {d}.",
+        "Theorem G7_sprt_conclude : forall ts A B, A < B -> src_conclude ts A B = conclude A B ts.",
+        "Proof. intros. unfold src_conclude, conclude. cond_tac. Qed.", ""])
+    return text, [{"site": "sprt.sprt", "while": ast.unparse(whiles[0].test), "decision": ast.unparse(chain[0]).replace("\n", " ; ")}]
